@@ -22,10 +22,15 @@ pub struct RefSign {
     /// The current pixel transfer has been well formed so far: every page started with an offset-0 chunk, every
     /// other chunk carried the offset at which it was appended, no buffer outgrew or fell short of a page.
     pub clean: bool,
+    /// Every data byte that arrived during the current pixel transfer, in arrival order (empty outside a transfer).
+    /// While the transfer is well formed this is the stored pages followed by the buffer, so it adds no state.
+    pub stream: Vec<u8>,
+    /// Only the lock-step oracle of C13 needs the stream; shadows that merely bound a search leave it off.
+    pub track_stream: bool,
 }
 
 /// What the statement fixes about `pages()` after a step.
-#[derive(Clone, Copy, PartialEq, Eq, Debug)]
+#[derive(Clone, PartialEq, Eq, Debug)]
 pub enum PagesRule {
     /// exactly the reference's pages
     Exact,
@@ -34,6 +39,10 @@ pub enum PagesRule {
     /// as SizeOnly, and the reference continues from the implementation's pages (a transfer that failed, was
     /// malformed or was abandoned: which of its data survives is open)
     Adopt,
+    /// a malformed transfer closed by a count equal to the number of chunks that arrived: if the implementation
+    /// reports 'received' it claims to have accepted every chunk, so its pages must be assembled from them in
+    /// arrival order: consecutive, non-overlapping pieces of the byte stream that arrived (then as Adopt)
+    AdoptFromStream(Vec<u8>),
 }
 
 /// Where the statement leaves the behaviour open; the lock-step oracle adopts the implementation's choice.
@@ -48,11 +57,13 @@ pub enum Open {
 
 impl RefSign {
     pub fn new(addr: u16, automatic: bool) -> Self {
-        RefSign { addr, automatic, state: State::Unconfigured, w: 0, h: 0, typ: None, pages: vec![], page_dims: vec![], buf: vec![], count: 0, bad_page: false, clean: true }
+        RefSign { addr, automatic, state: State::Unconfigured, w: 0, h: 0, typ: None, pages: vec![], page_dims: vec![], buf: vec![], count: 0, bad_page: false, clean: true, stream: vec![], track_stream: false }
     }
 
     fn reset(&mut self) {
+        let track = self.track_stream;
         *self = RefSign::new(self.addr, self.automatic);
+        self.track_stream = track;
     }
 
     pub fn receiving(&self) -> bool {
@@ -93,6 +104,14 @@ impl RefSign {
 
     /// One step of the documented machine. Returns the reply and whether the statement leaves this step open.
     pub fn step(&mut self, m: &Message<'_>) -> (Option<Message<'static>>, Open) {
+        let r = self.step_inner(m);
+        if self.state != State::PixelsInProgress {
+            self.stream.clear();
+        }
+        r
+    }
+
+    fn step_inner(&mut self, m: &Message<'_>) -> (Option<Message<'static>>, Open) {
         let own = Address(self.addr);
         match m {
             Message::Hello(a) | Message::QueryState(a) if *a == own => {
@@ -118,6 +137,7 @@ impl RefSign {
                         self.page_dims.clear();
                         self.bad_page = false;
                         self.clean = true;
+                        self.stream.clear();
                     }
                     Operation::ShowLoadedPage => self.state = State::PageShowInProgress,
                     Operation::LoadNextPage => self.state = State::PageLoadInProgress,
@@ -147,6 +167,9 @@ impl RefSign {
                             self.clean = false;
                         }
                         self.buf.extend_from_slice(d);
+                        if self.track_stream {
+                            self.stream.extend_from_slice(d);
+                        }
                         self.count += 1;
                         if self.w == 0 || self.h == 0 || self.buf.len() as u64 > padded(self.w as u64, self.h as u64) {
                             self.clean = false;
@@ -213,8 +236,16 @@ impl RefSign {
             Message::RequestOperation(a, Operation::FinishReset) if *a == own && before == State::ReadyToReset => true,
             _ => false,
         };
+        let arrived = if before == State::PixelsInProgress { std::mem::take(&mut self.stream) } else { vec![] };
+        let all_counted = matches!(m, Message::DataChunksSent(ChunkCount(c)) if *c as u32 == self.count);
         let (reply, open) = self.step(m);
         let after = self.state;
+        if after == State::PixelsInProgress && before == State::PixelsInProgress {
+            // still inside the transfer: keep the stream (step() has appended to the emptied vector)
+            let mut s = arrived.clone();
+            s.extend_from_slice(&self.stream);
+            self.stream = s;
+        }
         let rule = if resets {
             PagesRule::Exact
         } else if before == State::PixelsInProgress {
@@ -222,6 +253,8 @@ impl RefSign {
                 PagesRule::SizeOnly
             } else if matches!(m, Message::DataChunksSent(_)) && open == Open::No && after == State::PixelsReceived {
                 PagesRule::Exact
+            } else if open == Open::ReceivedOrFailed && all_counted && self.track_stream {
+                PagesRule::AdoptFromStream(arrived)
             } else {
                 PagesRule::Adopt
             }
@@ -257,4 +290,20 @@ impl RefSign {
             }
         }
     }
+}
+
+
+/// Are `pages` consecutive, non-overlapping pieces (in order) of `stream`? Greedy leftmost matching is complete here.
+pub fn pieces_of_stream(pages: &[Vec<u8>], stream: &[u8]) -> bool {
+    let mut from = 0usize;
+    for p in pages {
+        if p.is_empty() {
+            continue;
+        }
+        let Some(pos) = stream[from..].windows(p.len()).position(|w| w == &p[..]) else {
+            return false;
+        };
+        from += pos + p.len();
+    }
+    true
 }
